@@ -20,6 +20,6 @@ uint32_t clock_now();
 const std::vector<std::string>& block_texts();
 const std::vector<int>& block_parts();
 
-Model small_or_drawn_model(RunCtx& ctx, Rng& rng, GenCfg& cfg, bool allow_dynamic = true);
+Model small_or_drawn_model(RunCtx& ctx, Rng& rng, GenCfg& cfg, bool allow_dynamic = true, bool allow_old_syntax = false);
 
 }  // namespace sim
